@@ -1,18 +1,13 @@
 (* Inst/C17.v — facts about the generated type tables (re-checked on every run). *)
 From VB Require Import Base IR Sem Tables.
-From VB Require Import Classes Consts.
+From VB Require Import Classes Consts Common.
 Local Open Scope Z_scope.
-
-Definition cs := all_classes.
 
 Definition no_zero (o : option Z) : option Z := match o with Some 0 => None | x => x end.
 (* File::createObject as a function of the type code: the class it instantiates, if any *)
 Definition factory (code : Z) : option Z := no_zero (lookup code factory_table).
 (* the class the format documentation (File.h) assigns to a code *)
 Definition format (code : Z) : option Z := no_zero (lookup code format_table).
-
-Definition class_of_name (n : string) : Z :=
-  match find (fun p => String.eqb (snd p) n) class_names with Some p => fst p | None => -1 end.
 
 (* the type code a default-constructed object of class c carries *)
 Definition ctor_code (c : Z) : option Z :=
@@ -46,16 +41,8 @@ Definition written_code_ok (c : Z) : bool :=
 Definition ctor_exception_names : list string := ["EnvironmentVariable"%string].
 Definition init_exception_names : list string := [].
 
-Definition minus (l ex : list Z) : list Z := filter (fun c => negb (existsb (Z.eqb c) ex)) l.
 Definition ctor_exceptions := map class_of_name ctor_exception_names.
 Definition init_exceptions := map class_of_name init_exception_names.
-
-Lemma in_minus l ex c : In c l -> ~ In c ex -> In c (minus l ex).
-Proof.
-  intros Hl Hex. unfold minus. apply filter_In. split; [exact Hl|].
-  apply negb_true_iff. apply not_true_iff_false. intros H. apply existsb_exists in H.
-  destruct H as [x [Hx Heq]]. apply Z.eqb_eq in Heq. subst x. exact (Hex Hx).
-Qed.
 
 (* ---- the factory agrees with the format table on every code ---- *)
 Lemma factory_format_keys :
